@@ -219,15 +219,18 @@ fn check_constructors(r: &mut Report) {
         if (0..3).any(|n| (got[n] - want[n]).abs() > 1e-4) { r.violation(format!("ctor|from_basis|{p:?}"), format!("from_basis maps {p:?} to {got:?}, expected {want:?}"), obj! {"kind" => "ctor"}); }
     }
     // orient_y / orient_z: axis goes to the new axis, basis orthonormal and right-handed, third axis orthogonal to x
-    let dirs = [vec3(0.0, 1.0, 0.0), vec3(0.0, 0.0, 1.0), vec3(1.0, 2.0, 3.0).normalize(), vec3(-1.0, 1.0, 0.5).normalize(), vec3(0.6, 0.0, -0.8), vec3(-0.48, 0.6, 0.64)];
+    let dirs: [Vec3; 6] = [vec3(0.0, 1.0, 0.0), vec3(0.0, 0.0, 1.0), vec3(1.0, 2.0, 3.0).normalize(), vec3(-1.0, 1.0, 0.5).normalize(), vec3(0.6, 0.0, -0.8), vec3(-0.48, 0.6, 0.64)];
     let xs = [vec3(1.0, 0.0, 0.0), vec3(0.3, 0.1, 1.0).normalize(), vec3(0.0, 0.6, 0.8), vec3(-0.7071068, 0.7071068, 0.0)];
     // (the second argument only hints at a direction: its length - 2e-4 .. 50 - must not matter)
-    for d in dirs { for x0 in xs { for hs in [1.0f32, 2e-4, 3e-3, 50.0] {
-        if (d.dot(&x0).abs()) > 0.95 { continue; }
+    // (... nor the length of the first: for a primary axis of length L the basis is orthogonal, the primary axis is mapped
+    // onto it and the other two axes have unit length)
+    for d0 in dirs { for x0 in xs { for (hs, ds) in [(1.0f32, 1.0f32), (2e-4, 1.0), (3e-3, 1.0), (50.0, 1.0), (1.0, 20.0), (1.0, 100.0), (3e-3, 57.3), (1.0, 0.05)] {
+        if (d0.dot(&x0).abs()) > 0.95 { continue; }
+        let d = vec3(d0.x() * ds, d0.y() * ds, d0.z() * ds);
         let x = vec3(x0.x() * hs, x0.y() * hs, x0.z() * hs);
         for which in ["orient_y", "orient_z"] {
             r.eval();
-            let m = if which == "orient_y" { orient_y(d, x) } else { orient_z(d, x) };
+            let m = match caught(|| if which == "orient_y" { orient_y(d, x) } else { orient_z(d, x) }) { Ok(m) => m, Err(p) => { r.violation(format!("ctor|{which}|panic|{:?}|{:?}", d.0, x.0), format!("{which}({:?}, {:?}) panicked: {p}", d.0, x.0), obj! {"kind" => "ctor"}); continue; } };
             let md = d4(&m);
             let col = |j: usize| [md[0][j], md[1][j], md[2][j]];
             let (main, other) = if which == "orient_y" { (col(1), col(2)) } else { (col(2), col(1)) };
@@ -235,10 +238,14 @@ fn check_constructors(r: &mut Report) {
             let dd = [d.x() as f64, d.y() as f64, d.z() as f64];
             let xd = [x.x() as f64, x.y() as f64, x.z() as f64];
             let mut bad = vec![];
-            if (0..3).any(|i| (main[i] - dd[i]).abs() > 1e-5) { bad.push("axis-not-mapped"); }
-            for a in 0..3 { for b in 0..3 { let e = if a == b { 1.0 } else { 0.0 }; if (dot(col(a), col(b)) - e).abs() > 1e-4 { bad.push("not-orthonormal"); } } }
-            if (det3(&md) - 1.0).abs() > 1e-4 { bad.push("det-not-1"); }
-            if dot(other, xd).abs() > 1e-4 * hs as f64 || dot(other, dd).abs() > 1e-4 { bad.push("other-axis-not-orthogonal-to-x"); }
+            let l = ds as f64;
+            if (0..3).any(|i| (main[i] - dd[i]).abs() > 1e-5 * l) { bad.push("axis-not-mapped"); }
+            // columns mutually orthogonal; the primary axis and the one derived from it have length L, the remaining one is a unit vector
+            let len = |c: [f64; 3]| dot(c, c).sqrt();
+            for a in 0..3 { for b in 0..3 { if a != b && dot(col(a), col(b)).abs() > 1e-4 * len(col(a)) * len(col(b)) { bad.push("not-orthonormal"); } } }
+            if (len(main) - l).abs() > 1e-4 * l || (len(other) - 1.0).abs() > 1e-4 || (len(col(0)) - l).abs() > 1e-4 * l { bad.push("not-orthonormal"); }
+            if (det3(&md) / (l * l) - 1.0).abs() > 1e-4 { bad.push("det-not-1"); }
+            if dot(other, xd).abs() > 1e-4 * hs as f64 || dot(other, dd).abs() > 1e-4 * l { bad.push("other-axis-not-orthogonal-to-x"); }
             bad.dedup();
             if !bad.is_empty() { r.violation(format!("ctor|{which}|{}|{:?}|{:?}", bad.join("+"), d.0, x.0), format!("{which}({:?}, {:?}) = {:?}: {bad:?}", d.0, x.0, m.0), obj! {"kind" => "ctor"}); } else { r.nontrivial(); }
         }
@@ -509,7 +516,7 @@ fn fp_az(i: u64) -> f32 { let k = i / 54 % 29; if k < 25 { k as f32 * 15.0 - 180
 /// Camera::viewport accepts every range form; whatever the spelling, the result is the request intersected with the frame.
 fn check_camera_range_forms(i: u64, r: &mut Report) {
     r.eval();
-    const NF: u64 = 15;
+    const NF: u64 = 17;
     let dims = [(8u32, 8u32), (16, 9), (5, 7), (640, 480)][(i % 4) as usize];
     let form = i / 4 % NF;
     // builder order: the viewport set after the mode (as the demos do) or before it
@@ -517,6 +524,7 @@ fn check_camera_range_forms(i: u64, r: &mut Report) {
     let ident = || Mat4x4::<RealToReal<3, World, View>>::identity();
     macro_rules! mk { ($vp:expr) => { caught(|| if mode_last { Camera::new(dims).viewport($vp).mode(ident()) } else { Camera::new(dims).mode(ident()).viewport($vp) }) } }
     use re::util::rect::Rect;
+    use std::ops::Bound;
     // (the camera with the requested form, the explicit rectangle it means)
     let (cam, name, rect): (Result<_, String>, &str, (u32, u32, u32, u32)) = match form {
         0 => (mk!((..6u32, 2u32..5)), "(..6, 2..5)", (0, 2, 6, 5)),
@@ -536,6 +544,9 @@ fn check_camera_range_forms(i: u64, r: &mut Report) {
         12 => (mk!(Rect { left: None, top: Some(3u32), right: Some(3), bottom: Some(6) }), "Rect{-,3,3,6}", (0, 3, 3, 6)),
         // inclusive ends at u32::MAX: no half-open equivalent, yet a perfectly good request for "everything to the right / below"
         13 => (mk!((1u32..=u32::MAX, 2u32..=u32::MAX)), "(1..=MAX, 2..=MAX)", (1, 2, u32::MAX, u32::MAX)),
+        // bounds spelled with std::ops::Bound, exclusive starts included (no range syntax produces those)
+        14 => (mk!(((Bound::Excluded(0u32), Bound::Excluded(5u32)), (Bound::Excluded(1u32), Bound::Included(3u32)))), "((Excl 0, Excl 5), (Excl 1, Incl 3))", (1, 2, 5, 4)),
+        15 => (mk!(((Bound::Included(2u32), Bound::Unbounded), (Bound::Excluded(0u32), Bound::Excluded(4u32)))), "((Incl 2, Unbounded), (Excl 0, Excl 4))", (2, 1, u32::MAX, 4)),
         _ => (mk!((3u32..5, 1u32..4)), "(3..5, 1..4)", (3, 1, 5, 4)),
     };
     let name = &format!("{name}{}", if mode_last { " before mode()" } else { "" });
@@ -680,7 +691,7 @@ fn run_proj(cfg: &Cfg) -> ! {
     rects.extend([(0, 480, 640, 0), (640, 0, 0, 480), (640, 480, 0, 0), (7, 2, 3, 5), (3, 5, 7, 2), (5, 5, 2, 1), (0, 7, 8, 0), (101, 75, 0, 0)]);
     rep.merge(par_range(cfg, rects.len() as u64, |i, r| { let (l, t, rr, b) = rects[i as usize]; check_viewport(l, t, rr, b, r); }));
     rep.merge(par_range(cfg, 144 * 10 * 2, check_camera));
-    rep.merge(par_range(cfg, 4 * 15 * 2, check_camera_range_forms));
+    rep.merge(par_range(cfg, 4 * 17 * 2, check_camera_range_forms));
     rep.merge(par_range(cfg, 42, check_camera_empty_viewport));
     // FirstPerson::default() is FirstPerson::new(): same view transform, also after a translate (nothing resets the heading)
     {
